@@ -23,6 +23,9 @@ package c04
 //             volume, faithful to buffer[headerSize:]; UI / version / depex fields = decoding of the
 //             section's bytes
 //   ME        buffer = the region's bytes; partition table fields = bytes (when a table was found)
+//   NVAR      the store below a RAW file with the NVAR GUID: nvwalk.go
+//   cover     behind the last file of a volume: free space reported and an erased header there, or fewer
+//             than 24 bytes left
 //
 // Violations are grouped into a few named oracles (one core.Check each).
 
@@ -48,10 +51,11 @@ const (
 	oSection = "section-bytes-and-fields"
 	oEncap   = "decoded-content-partitioned"
 	oME      = "me-region-bytes-and-fields"
-	oCover   = "files-and-free-space-cover-volume"
+	oCover   = "files-and-free-space-cover-volume"          // no free space reported although a file header fits behind the last file
+	oWalkEnd = "file-walk-ends-at-free-space-or-volume-end" // free space reported that does not start with an erased file header
 )
 
-var oracleNames = []string{oFlash, oDesc, oBios, oVolume, oInside, oFile, oSection, oEncap, oME, oCover}
+var oracleNames = []string{oFlash, oDesc, oBios, oVolume, oInside, oFile, oSection, oEncap, oME, oCover, oWalkEnd, oNvar}
 
 type decodeRec struct {
 	key string // fnv:len of the decoder's input
@@ -60,12 +64,16 @@ type decodeRec struct {
 }
 
 type walker struct {
-	in      []byte
-	dd      bool // uefi.DisableDecompression during the parse
-	bad     map[string]string
-	nodes   int
-	decodes []decodeRec
-	nvars   []string
+	in        []byte
+	dd        bool // uefi.DisableDecompression during the parse
+	pol       byte // uefi.Attributes.ErasePolarity when the parse ended
+	bad       map[string]string
+	nodes     int
+	decodes   []decodeRec
+	nvStores  int // NVAR stores seen (any depth of the UEFI tree; nested NVAR stores not counted)
+	nvEntries int
+	nvOverlap int // stores whose last entry grew the GUID table into the entries (tolerated quirk)
+	meTables  int
 }
 
 func keyOf(b []byte) string { return fmt.Sprintf("%016x:%d", core.FNV(b), len(b)) }
@@ -93,8 +101,8 @@ func le(b []byte) uint64 {
 var flashSig = []byte{0x5a, 0xa5, 0xf0, 0x0f}
 
 // checkFaithful walks the tree and returns the verdicts.
-func checkFaithful(root fuefi.Firmware, in []byte, dd bool) *walker {
-	w := &walker{in: in, dd: dd, bad: map[string]string{}}
+func checkFaithful(root fuefi.Firmware, in []byte, dd bool, pol byte) *walker {
+	w := &walker{in: in, dd: dd, pol: pol, bad: map[string]string{}}
 	switch t := root.(type) {
 	case *fuefi.FlashImage:
 		w.flash(t)
@@ -243,8 +251,12 @@ func (w *walker) me(m *fuefi.MERegion, rbuf []byte) {
 	}
 	fp := m.FPT
 	if fp == nil {
+		if m.FreeSpaceOffset != 0 {
+			w.fail(oME, "FreeSpaceOffset %#x without partition table", m.FreeSpaceOffset)
+		}
 		return
 	}
+	w.meTables++
 	idx := bytes.Index(rbuf, []byte("$FPT"))
 	if idx < 0 {
 		w.fail(oME, "partition table reported but the region holds no $FPT")
@@ -353,6 +365,8 @@ func (w *walker) bios(b *fuefi.BIOSRegion, rbuf []byte, where string) {
 	}
 }
 
+var nvarGUID = []byte{0xa3, 0xb9, 0xf5, 0xce, 0x6d, 0x47, 0x7f, 0x49, 0x9f, 0xdc, 0xe9, 0x81, 0x43, 0xe0, 0x42, 0x2c}
+
 var (
 	ffs2 = []byte{0x78, 0xe5, 0x8c, 0x8c, 0x3d, 0x8a, 0x1c, 0x4f, 0x99, 0x35, 0x89, 0x61, 0x85, 0xc3, 0x2d, 0xd3}
 	ffs3 = []byte{0x7a, 0xc0, 0x73, 0x54, 0xcb, 0x3d, 0xca, 0x4d, 0xbd, 0x6f, 0x1e, 0x96, 0x89, 0xe7, 0x34, 0x9a}
@@ -446,20 +460,33 @@ func (w *walker) fv(v *fuefi.FirmwareVolume, data []byte) {
 		w.file(f, fvbuf[o:], i)
 		off = o + ext
 	}
-	if v.FreeSpace != 0 && v.FreeSpace != L-up(off, 8) {
-		w.fail(oVolume, "FreeSpace %#x, the last file ends at %#x in a volume of %#x", v.FreeSpace, off, L)
-	}
-	// completeness ("accounts for every input byte"): behind the last file the tree reports free space, or
-	// what is left cannot hold a file header.  Bytes that are neither in a file node nor reported as free
-	// space, although a header fits and they are not erased, are accounted for by nothing.
-	if rest := L - minU(up(off, 8), L); v.FreeSpace == 0 && rest >= 24 {
-		tail := fvbuf[up(off, 8):]
-		erased := true
-		for _, x := range tail {
-			erased = erased && x == 0xFF
+	// completeness ("accounts for every input byte", Props/C04.lean `volume_covered`): behind the last file —
+	// which ends at `off` — either free space is reported: then it starts at the next 8-aligned offset, runs to
+	// the end of the volume and begins with an erased file header (Size FFFFFF and extended size all ones, or
+	// fewer than 8 bytes behind 24 erased ones); or no free space is reported: then fewer than 24 bytes are
+	// left (the walk runs while offset <= Length-24, known finding F52 repaired by commit cce350a).
+	o8 := up(off, 8)
+	if v.FreeSpace != 0 {
+		if o8+24 > L || v.FreeSpace != L-o8 {
+			w.fail(oVolume, "FreeSpace %#x, the last file ends at %#x in a volume of %#x", v.FreeSpace, off, L)
+		} else {
+			hdr := fvbuf[o8:]
+			erasedHdr := le(hdr[20:23]) == 0xFFFFFF
+			if len(hdr) >= 32 {
+				erasedHdr = erasedHdr && le(hdr[24:32]) == 0xFFFFFFFFFFFFFFFF
+			} else {
+				for _, x := range hdr[:24] {
+					erasedHdr = erasedHdr && x == 0xFF
+				}
+			}
+			if !erasedHdr {
+				w.fail(oWalkEnd, "FreeSpace %#x reported from %#x on, but the 24 bytes there (%x) are not an erased file header: %d bytes dropped",
+					v.FreeSpace, o8, hdr[:24], v.FreeSpace)
+			}
 		}
-		if !erased {
-			w.fail(oCover, "%d bytes at [%#x,%#x) are not erased and belong to no file node, FreeSpace is 0", rest, up(off, 8), L)
+	} else if off <= L {
+		if rest := L - off; rest >= 24 {
+			w.fail(oCover, "%d bytes at [%#x,%#x) belong to no file node although a file header fits, FreeSpace is 0", rest, off, L)
 		}
 	}
 }
@@ -505,8 +532,16 @@ func (w *walker) file(f *fuefi.File, ctx []byte, idx int) {
 	if !bytes.Equal(f.Buf(), fbuf) {
 		w.fail(oFile, "file %d buffer (%d bytes) differs from the volume's bytes at its offset and size (%d)", idx, len(f.Buf()), ext)
 	}
-	if f.NVarStore != nil && f.DataOffset <= ext {
-		w.nvars = append(w.nvars, keyOf(fbuf[f.DataOffset:]))
+	if f.NVarStore != nil {
+		if ctx[18] != 0x01 || !bytes.Equal(ctx[0:16], nvarGUID) {
+			w.fail(oNvar, "file %d (type %#x, guid %x) reports an NVAR store but is not a RAW file with the NVAR GUID", idx, ctx[18], ctx[0:16])
+		} else if f.DataOffset >= ext {
+			w.fail(oNvar, "file %d reports an NVAR store but has no body (DataOffset %d, size %d)", idx, f.DataOffset, ext)
+		} else {
+			w.nvStores++
+			w.nvEntries += len(f.NVarStore.Entries)
+			w.nvStore(f.NVarStore, fbuf[f.DataOffset:], w.pol, fmt.Sprintf("file %d NVAR store", idx), 0)
+		}
 	}
 	if !fuefi.SupportedFiles[fuefi.FVFileType(ctx[18])] {
 		// the implementation's own table says: a leaf, its bytes are the node
